@@ -49,7 +49,17 @@ def run_case(ctx, rng, ci):
     F = len(ds["inputs"])
     flag = "-c" if ctype == "subtract" else "-C"
     opts = {"clim_type": ctype}
-    case = {"ds": ds, "ctype": ctype}
+    sel = {}
+    if rng.random() < 0.4:
+        # -obsrange limits the verification to a range of OBSERVATION values (not of anomalies)
+        ov = sorted(set(c["obs"] for i in ds["inputs"] for c in i["cells"].values() if c.get("obs") is not None))
+        if len(ov) >= 3:
+            a, b = sorted(rng.sample(ov, 2))
+            sel = {"obsrange": [a, b]}
+            opts.update(sel)
+            ctx.count("cases_with_obsrange")
+    sargv = vutil.opts_to_argv(sel)
+    case = {"ds": ds, "ctype": ctype, "sel": sel}
     times, leads, locs = refmodel.common_dims(ds)
     noclim = {"inputs": ds["inputs"], "clim": None}
     # how much does the climatology matter?
@@ -134,7 +144,7 @@ def run_case(ctx, rng, ci):
         except SystemExit:
             pass
         # (the driver makes the same whole-array requests when it has to choose thresholds itself, e.g. -m ets without -r)
-        o1 = runner.run_cli(paths + [flag, cpath, "-m", "ets", "-x", "no", "-type", "csv"])
+        o1 = runner.run_cli(paths + [flag, cpath] + sargv + ["-m", "ets", "-x", "no", "-type", "csv"])
         if o1.status == "crash":
             ctx.violation("crash|%s@%s" % (o1.exc_type, o1.where), o1.tb, case)
 
@@ -143,7 +153,7 @@ def run_case(ctx, rng, ci):
         for _ in range(4):
             metric = rng.choice(SHIFT_INV + ["corr", "ets", "mbias", "obs", "fcst"])
             axis = rng.choice(refmodel.ALL_AXES)
-            spec = {"metric": metric, "axis": axis, "clim": True, "clim_type": ctype, "opts": {}}
+            spec = {"metric": metric, "axis": axis, "clim": True, "clim_type": ctype, "opts": dict(sel)}
             if metric == "ets":
                 spec["thresholds"] = [rng.choice([-1.0, 0.0, 0.5, 1.0, 2.0])]
                 spec["bin"] = rng.choice(["above", "below=", "above="])
@@ -183,7 +193,7 @@ def run_case(ctx, rng, ci):
             metric = rng.choice(SHIFT_INV + ["within"])
             axis = rng.choice(refmodel.ALL_AXES)
             extra = ["-r", "2"] if metric == "within" else []
-            cmd = ["-m", metric] + extra + ["-x", axis, "-type", "csv"]
+            cmd = sargv + ["-m", metric] + extra + ["-x", axis, "-type", "csv"]
             o1 = runner.run_cli(paths + ["-c", cpath] + cmd)
             o2 = runner.run_cli(paths + [cpath] + cmd)
             ctx.count("metamorphic_pairs")
